@@ -192,6 +192,7 @@ type vfPrepared struct {
 	sess   *vfSession
 	after  func(resp *vfResp) // bookkeeping of harness-side facts (secrets shown, challenges seen)
 	env    func()             // environment step
+	task   func()             // a non-request activity that runs as a task of a concurrent group
 }
 
 var reTOTPSecret = regexp.MustCompile(`"TOTPSecret":"([A-Z2-7]+)"`)
@@ -776,6 +777,9 @@ func (w *vfWorld) runPlan(steps []vfStep) {
 				p := p
 				names = append(names, p.step.Op)
 				fns = append(fns, p.call.exec)
+			} else if p.task != nil {
+				names = append(names, p.step.Op)
+				fns = append(fns, p.task)
 			}
 		}
 		if len(fns) == 1 && w.detectBlocked && !steps[i].Serial {
